@@ -39,6 +39,8 @@ int32_t __llsym_choice (const char *n, int i, int bound)
   return (int32_t) v;
 }
 
+int32_t __llsym_pick (const char *n, int i, int bound) { return __llsym_choice (n, i, bound); }
+
 void __llsym_assume (int c) { if (!c) { printf ("ASSUME\n"); exit (12); } }
 /* LLSYM_KEEP_GOING=1: report a failing assertion and continue, so that a replay shows every
  * value the code under test computed; the exit status still says "assertion failed". */
